@@ -29,6 +29,9 @@ pub fn replicas(case: &Case, kinds: &[bool]) -> Result<(Image, Vec<Box<dyn Machi
     for &k in kinds {
         let mut m = new_machine(k, img.fd)?;
         fill_ram(m.as_mut(), case.get("ramfill") as u64);
+        // the bus-trace hook's thread-local buffer is initialised here, from Rust code (see block_lockstep::sweep)
+        m.trace_start();
+        let _ = m.trace_take();
         v.push(m);
     }
     Ok((img, v))
